@@ -14,6 +14,14 @@ from .c02 import corr_modules, lean_extra
 SIGS = ("window-conservation", "window-deadline", "partition-empty", "partition-oversize", "partition-mixed-keys",
         "partition-spurious-partial", "partition-late-full")
 CORPUS = [
+    # two partition(timeout) nodes alive at once, same key (None): each has its own timer - A filling up must not touch B's
+    {"mode": "async", "flavour": "future", "nodes": [{"kind": "source", "ups": []}, {"kind": "source", "ups": []},
+                                                      {"kind": "partition_timeout", "n": 2, "timeout": 1, "key": None, "ups": [0]},
+                                                      {"kind": "partition_timeout", "n": 3, "timeout": 2, "key": None, "ups": [1]},
+                                                      {"kind": "sink", "mode": "sync", "f": ["id"], "ups": [2]}, {"kind": "sink", "mode": "sync", "f": ["id"], "ups": [3]}],
+     "ops": [{"op": "settle"}, {"op": "emit", "node": 0, "val": 1, "md": [{"tag": 1, "ref": 1}]}, {"op": "emit", "node": 1, "val": 2, "md": [{"tag": 2, "ref": 2}]},
+             {"op": "emit", "node": 0, "val": 3, "md": [{"tag": 3, "ref": 3}]}, {"op": "advance", "dt": 1}, {"op": "advance", "dt": 1}, {"op": "advance", "dt": 1},
+             {"op": "emit", "node": 1, "val": 4, "md": []}, {"op": "emit", "node": 0, "val": 5, "md": []}, {"op": "advance", "dt": 3}]},
     # a None element is the first of its bucket (keep=first): it must stay the window's representative
     {"mode": "async", "flavour": "future", "nodes": [{"kind": "source", "ups": []},
                                                       {"kind": "timed_window_unique", "interval": 1, "key": ["bucketNone", 3], "keep": "first", "ups": [0]},
